@@ -1131,6 +1131,9 @@ class Controller:
                 classic_allow_role_switch=self.classic_allow_role_switch,
             )
         else:
+            if peer_address not in self.classic_connections:
+                # The ACL connection is gone: there is nothing to set up a link on
+                return
             self.sco_links[peer_address] = ScoLink(
                 handle=0,
                 link_type=link_type,
@@ -1190,6 +1193,17 @@ class Controller:
             )
 
     def on_classic_disconnected(self, peer_address: hci.Address, reason: int) -> None:
+        # A synchronous link does not outlive the ACL connection it was set up on
+        if sco_link := self.sco_links.pop(peer_address, None):
+            if sco_link.handle:
+                self.send_hci_packet(
+                    hci.HCI_Disconnection_Complete_Event(
+                        status=hci.HCI_ErrorCode.SUCCESS,
+                        connection_handle=sco_link.handle,
+                        reason=reason,
+                    )
+                )
+
         # Send a disconnection complete event
         if connection := self.classic_connections.pop(peer_address, None):
             self.send_hci_packet(
@@ -1252,6 +1266,12 @@ class Controller:
     def on_classic_sco_connection_complete(
         self, peer_address: hci.Address, status: int, link_type: int
     ) -> None:
+        if (
+            status == hci.HCI_ErrorCode.SUCCESS
+            and peer_address not in self.classic_connections
+        ):
+            # The ACL connection went away while the link was being set up
+            status = hci.HCI_ErrorCode.UNKNOWN_CONNECTION_IDENTIFIER_ERROR
         if status == hci.HCI_ErrorCode.SUCCESS:
             # Allocate (or reuse) a connection handle
             connection_handle = self.allocate_connection_handle()
